@@ -681,6 +681,10 @@ func c14Storms(ctx *Ctx) {
 	if failed() {
 		return
 	}
+	c14SizeSweeps(ctx)
+	if failed() {
+		return
+	}
 	c14MultiDests(ctx)
 	if failed() {
 		return
